@@ -624,6 +624,7 @@ func streamBuilder(c *Ctx) {
 	// the empty list
 	c.squareCase(sqCase{max: 4, thr: 64, desc: "empty"})
 	// the 1x1 tail padding square deconstructs to the empty list
+	c.emptySquareIsFresh()
 	nc := c.n(700, 4000)
 	maxes := []int{1, 2, 2, 4, 4, 4, 8, 8, 16}
 	if c.thorough {
@@ -640,6 +641,34 @@ func streamBuilder(c *Ctx) {
 	c.hugeTxCases()
 	if c.thorough {
 		c.exhaustiveSmallScope()
+	}
+}
+
+// emptySquareIsFresh: what Construct returns for the empty list belongs to the caller; a caller that reuses
+// that slice (here: to hold the square of one small transaction) must not change what the library later
+// returns for the empty list, nor what Deconstruct makes of later squares
+func (c *Ctx) emptySquareIsFresh() {
+	c.oracle()
+	ref := digList(sharesToBytes(square.EmptySquare()))
+	e0, err := square.Construct(nil, 4, 64)
+	if err != nil || len(e0) != 1 {
+		return
+	}
+	small := [][]byte{c.normalTx(40)}
+	one, err := square.Construct(small, 4, 64)
+	if err != nil || len(one) != 1 {
+		return
+	}
+	saved := e0[0]
+	e0[0] = one[0] // the caller reuses its slice
+	back, derr := square.Deconstruct(one, decodeMockPFB)
+	e1, _ := square.Construct(nil, 4, 64)
+	e0[0] = saved
+	if derr != nil || !eqTxs(back, small) {
+		c.violate("C02", "", "Deconstruct(Construct([one 40-byte tx])) does not return the tx after the caller reused the slice an earlier Construct(nil) had returned", "", nil)
+	}
+	if digList(sharesToBytes(e1)) != ref {
+		c.violate("C02", "", "Construct(nil) no longer returns the 1x1 tail padding square after the caller reused the slice an earlier Construct(nil) had returned", "", nil)
 	}
 }
 
@@ -873,6 +902,19 @@ func streamBHist(c *Ctx) {
 		fail := func(prop, what string) {
 			c.violate(prop, sc.class, what+" (history: "+trunc(desc, 300)+")", "", c.caseOps)
 		}
+		// what a fresh builder fed the appends accepted so far answers (reference for the queries)
+		freshNow := func() *square.Builder {
+			f, _ := square.NewBuilder(sc.max, sc.thr)
+			for _, t := range accepted {
+				if t.isBlob {
+					btx, _, _ := tx.UnmarshalBlobTx(t.raw)
+					f.AppendBlobTx(btx)
+				} else {
+					f.AppendTx(t.raw)
+				}
+			}
+			return f
+		}
 		query := func() {
 			switch c.rng.Intn(5) {
 			case 0:
@@ -889,12 +931,28 @@ func streamBHist(c *Ctx) {
 				c.emit(fmt.Sprintf("b txrange %d", i), rangeOutBare(r, err))
 				desc += "R "
 				sawExport = true
+				if sc.class == "" {
+					c.oracle()
+					fr, ferr := freshNow().FindTxShareRange(i)
+					if rangeOutBare(r, err) != rangeOutBare(fr, ferr) {
+						fail("C12", fmt.Sprintf("FindTxShareRange(%d) answers %s after this history; a fresh builder fed the same accepted appends answers %s", i, rangeOutBare(r, err), rangeOutBare(fr, ferr)))
+						fail("C14", "a query depends on the history of exports / queries / refused appends")
+					}
+				}
 			case 2:
 				p, j := c.rng.Range(0, b.NumTxs()), c.rng.Range(-1, 3)
 				v, err := b.FindBlobStartingIndex(p, j)
 				c.emit(fmt.Sprintf("b blobidx %d %d", p, j), okOr(err, fmt.Sprintf("ok %d", v)))
 				desc += "I "
 				sawExport = true
+				if sc.class == "" {
+					c.oracle()
+					fv, ferr := freshNow().FindBlobStartingIndex(p, j)
+					if (err == nil) != (ferr == nil) || (err == nil && v != fv) {
+						fail("C04", fmt.Sprintf("FindBlobStartingIndex(%d, %d) answers %s after this history; a fresh builder fed the same accepted appends answers %s", p, j, okOr(err, fmt.Sprint(v)), okOr(ferr, fmt.Sprint(fv))))
+						fail("C14", "a query depends on the history of exports / queries / refused appends")
+					}
+				}
 			case 3:
 				p, j := c.rng.Range(0, b.NumTxs()), c.rng.Range(-1, 3)
 				v, err := b.BlobShareLength(p, j)
